@@ -29,3 +29,40 @@ CHECKS["C01"] = dict(
     replay=replay_index("c01"),
     require=dict(events_written=1000),
 )
+
+CHECKS["C02"] = dict(
+    level="exploration",
+    level_text=("runtime monitor with a reference encoder as oracle: every emitted event is re-read with the harness's own tokenizer and each "
+                "field compared with the value that was logged (text after U+FFFD mapping, integers via big.Int text, floats bit-exact and "
+                "equal to encoding/json's text, times/durations per the globals, documented text forms); the same (kind,value) is logged through "
+                "every entry point and the raw value bytes must be identical. Thorough tier is exhaustive over all 2^32 float32 patterns."),
+    technique="runtime monitoring: reference-encoder oracle + metamorphic entry-point comparison over seeded/exhaustive value spaces",
+    stages=lambda tier: [dict(variant="vh", cmd="c02", shards=16, timeout=3000),
+                         dict(variant="vh", cmd="c02-floats", shards=16, timeout=3000)],
+    rule=("cases = (a) class-alphabet strings up to length L through every string-carrying call/front-end, (b) one metamorphic program per "
+          "(scalar kind, generated value, random time/duration/precision/error-marshal settings) logging the value through Event, Context, "
+          "Dict, Object, Func, Array, Fields(map/slice/pointer) and the slice variant, (c) float32 bit patterns (stride 1021 quick, all 2^32 "
+          "thorough) and random/boundary float64 patterns. distinct_nontrivial counts distinct (settings, event bytes) hashes of (a)+(b) only; "
+          "float patterns are counted in counters.float32_patterns / float64_patterns (each pattern is distinct by construction)."),
+    assumptions=["reference renderings come from strconv / encoding/json / time / net of the Go toolchain, not from zerolog",
+                 "ErrorMarshalFunc variants used are idempotent (Event.Errs applies the function twice; not regulated by the statement)",
+                 "pre-1970 instants under UNIXMS/UNIXMICRO may be truncated or floored (the statement does not say which)"],
+    replay=replay_index("c02"),
+    require=dict(float32_patterns=100000, occurrences_compared=10000),
+)
+
+CHECKS["C03"] = dict(
+    level="exploration",
+    level_text=("runtime monitor: for seeded random derivation chains (With/Reset/Timestamp/Stack/Ctx/UpdateContext/Hook/Level/Output/Sample) "
+                "every emitted object's ordered member list and values are compared with a model computed from the program alone, and each "
+                "recording hook's invocation log with the specified (id, level, message) sequence."),
+    technique="runtime monitoring: layout/hook-order reference model checked against every emitted event and recorded hook log",
+    stages=lambda tier: [dict(variant="vh", cmd="c03", shards=16, timeout=3000)],
+    rule=("cases = seeded random programs with unique keys: chain of <=6 (quick) / <=12 (thorough) derivation steps, hook lists mixing "
+          "add/discard/GetCtx/noop/LevelHook/HookFunc/Timestamp hooks, 1-4 events with <=6 nested field calls, all finalizers. non-trivial = "
+          "wrote an event, chain length >= 2 and at least one hook attached; distinct by hash of (settings, event bytes)."),
+    assumptions=["after a discarding hook the level handed to later hooks is not regulated (only that they run once and the event is not written)",
+                 "hooks only add plain scalar fields (no Err, whose rendering depends on the running event's stack flag)"],
+    replay=replay_index("c03"),
+    require=dict(events_written=1000, hooks_attached=500, discard_hooks=20),
+)
